@@ -28,27 +28,27 @@ import (
 	"github.com/rs/zerolog"
 )
 
-type cmAddr struct {
+type c18CmAddr struct {
 	idx int
 	ok  bool
 }
 
-func (a *cmAddr) Network() string { return "tcp" }
-func (a *cmAddr) String() string  { return fmt.Sprintf("10.7.%d.1:8333", a.idx) }
+func (a *c18CmAddr) Network() string { return "tcp" }
+func (a *c18CmAddr) String() string  { return fmt.Sprintf("10.7.%d.1:8333", a.idx) }
 
-type cmConn struct {
-	rig    *cmRig
+type c18CmConn struct {
+	rig    *c18CmRig
 	closed int32
 }
 
-func (c *cmConn) Read([]byte) (int, error)         { return 0, errors.New("not readable") }
-func (c *cmConn) Write(b []byte) (int, error)      { return len(b), nil }
-func (c *cmConn) LocalAddr() net.Addr              { return &net.TCPAddr{} }
-func (c *cmConn) RemoteAddr() net.Addr             { return &net.TCPAddr{} }
-func (c *cmConn) SetDeadline(time.Time) error      { return nil }
-func (c *cmConn) SetReadDeadline(time.Time) error  { return nil }
-func (c *cmConn) SetWriteDeadline(time.Time) error { return nil }
-func (c *cmConn) Close() error {
+func (c *c18CmConn) Read([]byte) (int, error)         { return 0, errors.New("not readable") }
+func (c *c18CmConn) Write(b []byte) (int, error)      { return len(b), nil }
+func (c *c18CmConn) LocalAddr() net.Addr              { return &net.TCPAddr{} }
+func (c *c18CmConn) RemoteAddr() net.Addr             { return &net.TCPAddr{} }
+func (c *c18CmConn) SetDeadline(time.Time) error      { return nil }
+func (c *c18CmConn) SetReadDeadline(time.Time) error  { return nil }
+func (c *c18CmConn) SetWriteDeadline(time.Time) error { return nil }
+func (c *c18CmConn) Close() error {
 	if atomic.CompareAndSwapInt32(&c.closed, 0, 1) {
 		c.rig.mu.Lock()
 		c.rig.nOpen--
@@ -58,23 +58,23 @@ func (c *cmConn) Close() error {
 	return nil
 }
 
-type cmGateResp struct {
+type c18CmGateResp struct {
 	addr    int
 	ok      bool
 	addrErr bool
 }
 
-type cmGate struct {
+type c18CmGate struct {
 	serial int
-	ch     chan cmGateResp
+	ch     chan c18CmGateResp
 }
 
-type cmEst struct {
+type c18CmEst struct {
 	id   uint64
 	addr int
 }
 
-type cmRig struct {
+type c18CmRig struct {
 	mu   sync.Mutex
 	cond *sync.Cond
 	cm   *connmgr.ConnManager
@@ -83,11 +83,11 @@ type cmRig struct {
 	quit chan struct{}
 
 	lockstep bool
-	waiting  []*cmGate // requests blocked in GetNewAddress, arrival order
+	waiting  []*c18CmGate // requests blocked in GetNewAddress, arrival order
 	arrivals int
-	est      []cmEst  // OnConnection minus OnDisconnection, establishment order
-	closed   []uint64 // OnDisconnection, call order
-	banned   []int    // BanAddress calls
+	est      []c18CmEst // OnConnection minus OnDisconnection, establishment order
+	closed   []uint64   // OnDisconnection, call order
+	banned   []int      // BanAddress calls
 	dials    int
 	asks     int
 	nOpen    int // connections returned by Dial and not yet closed
@@ -100,7 +100,7 @@ type cmRig struct {
 	nextAddr int
 }
 
-func addrIdx(s string) int {
+func c18AddrIdx(s string) int {
 	// "10.7.<idx>.1:8333"
 	parts := strings.Split(s, ".")
 	if len(parts) < 3 {
@@ -113,8 +113,8 @@ func addrIdx(s string) int {
 	return n
 }
 
-func newCmRig(target int, ban bool, lockstep bool, retry time.Duration) (*cmRig, error) {
-	r := &cmRig{tgt: target, ban: ban, lockstep: lockstep, quit: make(chan struct{})}
+func c18NewCmRig(target int, ban bool, lockstep bool, retry time.Duration) (*c18CmRig, error) {
+	r := &c18CmRig{tgt: target, ban: ban, lockstep: lockstep, quit: make(chan struct{})}
 	r.cond = sync.NewCond(&r.mu)
 	nop := zerolog.Nop()
 	cfg := &connmgr.Config{
@@ -125,7 +125,7 @@ func newCmRig(target int, ban bool, lockstep bool, retry time.Duration) (*cmRig,
 			if r.lockstep {
 				r.mu.Lock()
 				r.arrivals++
-				g := &cmGate{serial: r.arrivals, ch: make(chan cmGateResp, 1)}
+				g := &c18CmGate{serial: r.arrivals, ch: make(chan c18CmGateResp, 1)}
 				r.waiting = append(r.waiting, g)
 				r.cond.Broadcast()
 				r.mu.Unlock()
@@ -137,7 +137,7 @@ func newCmRig(target int, ban bool, lockstep bool, retry time.Duration) (*cmRig,
 					if resp.addrErr {
 						return nil, errors.New("no valid connect address")
 					}
-					return &cmAddr{idx: resp.addr, ok: resp.ok}, nil
+					return &c18CmAddr{idx: resp.addr, ok: resp.ok}, nil
 				case <-r.quit:
 					return nil, errors.New("rig stopped")
 				}
@@ -154,10 +154,10 @@ func newCmRig(target int, ban bool, lockstep bool, retry time.Duration) (*cmRig,
 			} else {
 				r.nextAddr++ // never the same address twice: no address can reach maxFailedAttempts
 			}
-			return &cmAddr{idx: idx, ok: r.rng.Intn(100) < r.pSuccess}, nil
+			return &c18CmAddr{idx: idx, ok: r.rng.Intn(100) < r.pSuccess}, nil
 		},
 		Dial: func(a net.Addr) (net.Conn, error) {
-			ca := a.(*cmAddr)
+			ca := a.(*c18CmAddr)
 			r.mu.Lock()
 			defer r.mu.Unlock()
 			r.dials++
@@ -169,11 +169,11 @@ func newCmRig(target int, ban bool, lockstep bool, retry time.Duration) (*cmRig,
 				r.maxOpen = r.nOpen
 			}
 			r.cond.Broadcast()
-			return &cmConn{rig: r}, nil
+			return &c18CmConn{rig: r}, nil
 		},
 		OnConnection: func(c *connmgr.ConnReq, _ net.Conn, _ *zerolog.Logger) {
 			r.mu.Lock()
-			r.est = append(r.est, cmEst{id: c.ID(), addr: c.Addr.(*cmAddr).idx})
+			r.est = append(r.est, c18CmEst{id: c.ID(), addr: c.Addr.(*c18CmAddr).idx})
 			r.cond.Broadcast()
 			r.mu.Unlock()
 		},
@@ -193,7 +193,7 @@ func newCmRig(target int, ban bool, lockstep bool, retry time.Duration) (*cmRig,
 	if ban {
 		cfg.BanAddress = func(s string) {
 			r.mu.Lock()
-			r.banned = append(r.banned, addrIdx(s))
+			r.banned = append(r.banned, c18AddrIdx(s))
 			r.cond.Broadcast()
 			r.mu.Unlock()
 		}
@@ -206,7 +206,7 @@ func newCmRig(target int, ban bool, lockstep bool, retry time.Duration) (*cmRig,
 	return r, nil
 }
 
-func (r *cmRig) stop() {
+func (r *c18CmRig) stop() {
 	r.cm.Stop()
 	close(r.quit)
 	r.mu.Lock()
@@ -214,7 +214,7 @@ func (r *cmRig) stop() {
 	r.mu.Unlock()
 }
 
-func ints(xs []int) string {
+func c18Ints(xs []int) string {
 	var s []string
 	for _, x := range xs {
 		s = append(s, strconv.Itoa(x))
@@ -223,17 +223,17 @@ func ints(xs []int) string {
 }
 
 // line renders the observable state like the Lean driver's state line (call with r.mu held).
-func (r *cmRig) line() string {
+func (r *c18CmRig) line() string {
 	var addrs []int
 	for _, e := range r.est {
 		addrs = append(addrs, e.addr)
 	}
 	return fmt.Sprintf("conns=%d live=%d bans=%d dials=%d asks=%d closed=%d addrs=%s banned=%s", len(r.est), len(r.waiting), len(r.banned),
-		r.dials, r.asks, len(r.closed), ints(addrs), ints(r.banned))
+		r.dials, r.asks, len(r.closed), c18Ints(addrs), c18Ints(r.banned))
 }
 
 // waitFor blocks until pred holds or the timeout expires; returns the last rendered line.
-func (r *cmRig) waitFor(timeout time.Duration, pred func() bool) (bool, string) {
+func (r *c18CmRig) waitFor(timeout time.Duration, pred func() bool) (bool, string) {
 	deadline := time.Now().Add(timeout)
 	stopTimer := make(chan struct{})
 	go func() {
@@ -262,7 +262,7 @@ func (r *cmRig) waitFor(timeout time.Duration, pred func() bool) (bool, string) 
 	return true, r.line()
 }
 
-const cmQuiesce = 30 * time.Second // generous: only ever waited out when something is wrong
+const c18CmQuiesce = 30 * time.Second // generous: only ever waited out when something is wrong
 
 // lockstepRun executes `conn …` op lines on the real manager and on the Lean machine.
 // Returns the number of ops executed.
@@ -280,7 +280,7 @@ func c18Lockstep(c *Ctx, l *lib.Lean, ops []string, caseName string) (int, error
 	if effTarget == 0 {
 		effTarget = 8
 	}
-	r, err := newCmRig(target, ban, true, time.Millisecond)
+	r, err := c18NewCmRig(target, ban, true, time.Millisecond)
 	if err != nil {
 		return 0, err
 	}
@@ -312,7 +312,7 @@ func c18Lockstep(c *Ctx, l *lib.Lean, ops []string, caseName string) (int, error
 			}
 			g := r.waiting[k]
 			r.waiting = append(r.waiting[:k:k], r.waiting[k+1:]...)
-			resp := cmGateResp{ok: w[1] == "ok", addrErr: w[1] == "addrfail"}
+			resp := c18CmGateResp{ok: w[1] == "ok", addrErr: w[1] == "addrfail"}
 			if w[1] != "addrfail" {
 				resp.addr = num(3)
 			}
@@ -390,7 +390,7 @@ func c18Lockstep(c *Ctx, l *lib.Lean, ops []string, caseName string) (int, error
 		}
 		// quiescence = the observable counts have reached the model's; a Disconnect/Remove of an
 		// id that changes nothing is followed by a short settle time so that a wrong reaction shows
-		okq, line := r.waitFor(cmQuiesce, func() bool { return r.line() == model })
+		okq, line := r.waitFor(c18CmQuiesce, func() bool { return r.line() == model })
 		c.R.TracesValidated++
 		if !okq {
 			c.R.Disagree(lib.Disagreement{Case: caseName, Ops: ops[:i+1], Op: op, Impl: line, Model: model})
@@ -443,8 +443,8 @@ func c18Lockstep(c *Ctx, l *lib.Lean, ops []string, caseName string) (int, error
 	return len(ops), nil
 }
 
-// genConnHistory: seeded lock-step script. style "noban" | "ban" | "banheavy" | "cancel".
-func genConnHistory(rng *rand.Rand, n int, style string) []string {
+// c18GenConnHistory: seeded lock-step script. style "noban" | "ban" | "banheavy" | "cancel".
+func c18GenConnHistory(rng *rand.Rand, n int, style string) []string {
 	target := 1 + rng.Intn(8)
 	if rng.Intn(12) == 0 {
 		target = 0 // default target
@@ -567,7 +567,7 @@ func genConnHistory(rng *rand.Rand, n int, style string) []string {
 // c18FreeRun: real goroutine interleavings, oracle only.
 func c18FreeRun(c *Ctx, rng *rand.Rand, target int, ban bool, disconnects int) {
 	name := fmt.Sprintf("conn/free target=%d ban=%v", target, ban)
-	r, err := newCmRig(target, ban, false, time.Millisecond)
+	r, err := c18NewCmRig(target, ban, false, time.Millisecond)
 	if err != nil {
 		c.R.Notes = append(c.R.Notes, err.Error())
 		return
@@ -670,13 +670,13 @@ func c18SilenceAfterBan(ops []string) (bool, string, error) {
 	if target == 0 {
 		target = 8
 	}
-	r, err := newCmRig(target, w[3] == "1", true, time.Millisecond)
+	r, err := c18NewCmRig(target, w[3] == "1", true, time.Millisecond)
 	if err != nil {
 		return false, "", err
 	}
 	defer r.stop()
 	r.cm.Start()
-	if ok, line := r.waitFor(cmQuiesce, func() bool { return len(r.waiting) == target }); !ok {
+	if ok, line := r.waitFor(c18CmQuiesce, func() bool { return len(r.waiting) == target }); !ok {
 		return false, line, nil
 	}
 	for _, op := range ops[1:] {
@@ -696,8 +696,8 @@ func c18SilenceAfterBan(ops []string) (bool, string, error) {
 		r.waiting = append(r.waiting[:k:k], r.waiting[k+1:]...)
 		before := r.dials
 		r.mu.Unlock()
-		g.ch <- cmGateResp{addr: a, ok: w[1] == "ok"}
-		r.waitFor(cmQuiesce, func() bool { return r.dials > before })
+		g.ch <- c18CmGateResp{addr: a, ok: w[1] == "ok"}
+		r.waitFor(c18CmQuiesce, func() bool { return r.dials > before })
 		// give the follow-up request (if any) time to arrive
 		r.waitFor(300*time.Millisecond, func() bool { return len(r.est)+len(r.waiting) == target })
 	}
